@@ -89,32 +89,45 @@ Proof. exact gen_errors_top. Qed.
 Print Assumptions C18_errors_top.
 
 (* ---------- replace_subgroups: "swaps exactly the selected subgroup members" ---------- *)
-(* The full-strength statement (for every valid abstract selection, in every rendering, the result is the object with
-   exactly the selected paths assigned their members) is FALSE of the faithful model - see the three witnesses; the
-   correspondence run reports the same three behaviours on the implementation. *)
-Theorem C18_subgroups_refuted :
-  (exists T o p c e e', expected_sub T [(p, c)] o = Some e /\ rsub_gen T 64 o (flat1 p c) = Ok e' /\ e' <> e)
-  /\ (exists T o p c e', expected_sub T [(p, c)] o = None /\ rsub_gen T 64 o (flat1 p c) = Ok e')
-  /\ (exists T o p c e x, expected_sub T [(p, c)] o = Some e /\ rsub_gen T 64 o (flat1 p c) = Err (Raise x)).
-Proof. exact sub_refuted. Qed.
-Print Assumptions C18_subgroups_refuted.
+(* F ranges over ALL selection forests (any depth, any number of selections), passed in the nested form
+   {"a": {"__key__": choice, "b": ...}} (render_forest); its abstract reading paths_forest F lists (path, choice) with a
+   member before the members below it.  expected_sub assigns each path the member its choice denotes, one after the
+   other, with plain path assignment (set_path: C18_set_path_get / C18_set_path_frame say what that leaves alone).
+   Boolean side conditions: forest_ok (distinct, dot-free keys different from "__key__"; no empty node), forest_good /
+   tgood / vgood (unique field names, init=False fields at their defaults - in the instance, in the instances named by
+   choices and in the observed tables), depth_forest F < fuel, and
+   present T F o: a member that is not itself selected but has selections below it IS there (a dataclass instance in a
+   field whose annotation holds a dataclass).  That last one names the only excluded inputs: see the _refuted witness. *)
+Theorem C18_subgroups : forall T F fuel o,
+  forest_ok KW F = true -> forest_good F = true -> tgood T = true -> vgood o = true ->
+  present T F o = true -> depth_forest F < fuel ->
+  match expected_sub T (paths_forest F) o with
+  | Some e => rsub_gen T fuel o (Some (render_forest KW F)) = Ok e
+  | None => exists x, rsub_gen T fuel o (Some (render_forest KW F)) = Err (Raise x)
+  end.
+Proof. exact sub_full. Qed.
+Print Assumptions C18_subgroups.
 
-(* Proved: no selection = the very same object; ONE top-level selection on a class whose fields are all init fields
-   (all_init), naming an existing field: exactly that member is swapped for the one the choice denotes, or the call
-   raises when the choice denotes none.  Missing (sampled only): several / nested selections. *)
-Theorem C18_subgroups_nil_partial : forall T fuel o,
+(* the selected path holds the member; every path that neither leads to it nor lies below it is untouched *)
+Theorem C18_set_path_get : forall p m o o', set_path p m o = Some o' -> get o' p = Some m.
+Proof. exact set_path_get. Qed.
+Print Assumptions C18_set_path_get.
+Theorem C18_set_path_frame : forall p m o o' q, set_path p m o = Some o' ->
+  is_prefix p q = false -> is_prefix q p = false -> get o' q = get o q.
+Proof. exact set_path_frame. Qed.
+Print Assumptions C18_set_path_frame.
+
+Theorem C18_subgroups_nil : forall T fuel o,
   rsub_gen T (S fuel) o None = Ok o /\ rsub_gen T (S fuel) o (Some []) = Ok o.
 Proof. exact sub_nil. Qed.
-Print Assumptions C18_subgroups_nil_partial.
+Print Assumptions C18_subgroups_nil.
 
-Theorem C18_subgroups_single_partial : forall T fuel cls fs k c,
-  NoDup (map fname fs) -> all_init fs = true -> nodot k = true -> has_init_field fs k = true ->
-  match expected_sub T [([k], c)] (VDc cls fs) with
-  | Some e => rsub_gen T (S fuel) (VDc cls fs) (Some [(k, sel_of_choice c)]) = Ok e
-  | None => exists x, rsub_gen T (S fuel) (VDc cls fs) (Some [(k, sel_of_choice c)]) = Err (Raise x)
-  end.
-Proof. exact sub_single. Qed.
-Print Assumptions C18_subgroups_single_partial.
+(* what is still false without `present`: selecting below a member that is not there does not raise *)
+Theorem C18_subgroups_absent_member_refuted :
+  exists T F o e', forest_ok KW F = true /\ forest_good F = true /\ tgood T = true /\ vgood o = true /\
+    expected_sub T (paths_forest F) o = None /\ rsub_gen T 64 o (Some (render_forest KW F)) = Ok e'.
+Proof. exact sub_absent_member_refuted. Qed.
+Print Assumptions C18_subgroups_absent_member_refuted.
 
 (* non-vacuity: a three-level frozen-style tree, a change set with a nested change, a member swap and a dict value;
    its dotted rendering gives the same result; an init=False target raises *)
@@ -145,7 +158,13 @@ Example C18_nonvacuous :
   /\ must_raise ex_obj [("a", VDict [("b", VDict [("n", VLeaf "int" "4")])])] = true
   /\ replace_gen ex_obj [("a.b.n", VLeaf "int" "4")] = Err (Raise "ValueError")
   /\ replace_gen ex_obj [("a.zz", VLeaf "int" "4")] = Err (Raise "TypeError")
-  /\ all_init [("ab", FInit, w_A "4"); ("k", FInit, VLeaf "int" "8")] = true
-  /\ rsub_gen w_T 1 (w_AB (w_A "4") "8") (Some [("ab", sel_of_choice (CKey "b"))]) = Ok (w_AB w_B "8").
+  (* replace_subgroups: a class with an init=False field, a child-only selection two levels down keeps nest.k = 8 *)
+  /\ forest_ok KW w_F = true /\ forest_good w_F = true /\ tgood w_T = true
+  /\ vgood (w_C (w_AB (w_A "4") "8")) = true /\ present w_T w_F (w_C (w_AB (w_A "4") "8")) = true /\ depth_forest w_F < 3
+  /\ paths_forest w_F = [(["nest"; "ab"], CKey "b")]
+  /\ render_forest KW w_F = [("nest", SDict [("ab", SKey "b")])]
+  /\ rsub_gen w_T 3 (w_C (w_AB (w_A "4") "8")) (Some (render_forest KW w_F)) = Ok (w_C (w_AB w_B "8"))
+  /\ expected_sub w_T [(["zz"], CKey "b")] (w_C (w_AB (w_A "4") "8")) = None
+  /\ rsub_gen w_T 3 (w_C (w_AB (w_A "4") "8")) (Some [("zz", SKey "b")]) = Err (Raise "ValueError").
 Proof. vm_compute. repeat split; reflexivity. Qed.
 Print Assumptions C18_nonvacuous.
